@@ -453,6 +453,13 @@ class Extract:
     def compare(self, c, env):
         op = c["op"]
         l, r_ = c["l"], c["r"]
+        # `x == false`, `true != x`: boolean literal comparisons are just (negated) conditions
+        for a, b_ in ((l, r_), (r_, l)):
+            bl = peel(b_)
+            if isinstance(bl, dict) and bl.get("k") == "lit" and bl.get("t") == "bool" and op in ("==", "!="):
+                f = self.cond(a, env)
+                pos = (bl.get("v") is True) == (op == "==")
+                return f if pos else f_not(f)
         lv = lit_val(peel(l))
         rv = lit_val(peel(r_))
         # normalise literal to the right
